@@ -96,7 +96,7 @@ pub fn run(ctx: &Arc<Ctx>) {
     refmodels::selftest::run(&["sm3", "sm2"]).unwrap_or_else(|e| ctx.machinery_error(format!("reference self-test failed: {}", e)));
     let n = sm2::params().n.clone();
     let p = sm2::params().p.clone();
-    ctx.set_rule("for each base signature (quick 12, thorough 60: keys x nonces x IDs x messages from the C03 alphabets, made by the reference signer): all 512 single-bit flips of r||s; r,s substituted by {0,1,n-1,n,n+1,2^256-1}, s=n-r, swapped; (r+delta, s') completed with the private key so that the verification point is unchanged, delta in {+-1, +-(p-n), +-(2^256-n), +-(2^256-p)}; the public key held as a Jacobian key object (Z in {2, p-1, seeded}); message bit flipped / byte appended / truncated, or replaced by the intermediate values e = SM3(Z_A||M), Z_A||M, Z_A, SM3(M) (also on messages of 2^16+5 bytes and 4 MiB+17 bytes, changed at the end, in the middle and after the first block); ID changed (also to normalisation-equivalent spellings: trailing / leading white space, line end, NUL, case; and to IDs longer than 8191 bytes sharing the signer's prefix); key replaced by another key and by -P; every signature length 0..=130 as prefix/extension and constant fills, and lengths 64 + 256k, 64 + 65536 with neighbours; the valid (r, s) re-encoded as DER SEQUENCE { r, s }, as hex text, doubled, or with a leading 00 / 04; signatures searched so that r||s starts with 30 3e or r + s has 16 clear low bits; plus the product RxS of a 12-element boundary alphabet; pre-searched messages whose digest e is >= n; key objects that hold the point at infinity or a point off the curve (affine and Jacobian), with signatures forged for the verification point [s]G; pre-searched signatures with r or s below 2^224 and their r+n / s+n aliases. Oracle: the reference verifier (and 'exactly 64 bytes'); library must return Err whenever it rejects — never Ok, never a panic — and Ok when it accepts.");
+    ctx.set_rule("for each base signature (quick 12, thorough 60: keys x nonces x IDs x messages from the C03 alphabets, made by the reference signer): all 512 single-bit flips of r||s; r,s substituted by {0,1,n-1,n,n+1,2^256-1}, s=n-r, swapped, s -> n-s, r -> n-r; (r+delta, s') completed with the private key so that the verification point is unchanged, delta in {+-1, +-(p-n), +-(2^256-n), +-(2^256-p)}; the public key held as a Jacobian key object (Z in {2, p-1, seeded}); message bit flipped / byte appended / truncated, or replaced by the intermediate values e = SM3(Z_A||M), Z_A||M, Z_A, SM3(M) (also on messages of 2^16+5 bytes and 4 MiB+17 bytes, changed at the end, in the middle and after the first block); ID changed (also to normalisation-equivalent spellings: trailing / leading white space, line end, NUL, case; and to IDs longer than 8191 bytes sharing the signer's prefix); key replaced by another key and by -P; every signature length 0..=130 as prefix/extension and constant fills, and lengths 64 + 256k, 64 + 65536 with neighbours; the valid (r, s) re-encoded as DER SEQUENCE { r, s }, as hex text, doubled, or with a leading 00 / 04; signatures searched so that r||s starts with 30 3e or r + s has 16 clear low bits; plus the product RxS of a 12-element boundary alphabet; pre-searched messages whose digest e is >= n; key objects that hold the point at infinity or a point off the curve (affine and Jacobian), with signatures forged for the verification point [s]G; pre-searched signatures with r or s below 2^224 and their r+n / s+n aliases. Oracle: the reference verifier (and 'exactly 64 bytes'); library must return Err whenever it rejects — never Ok, never a panic — and Ok when it accepts.");
     let ds = scalar_alphabet(&n, ctx.seed, "c04d", 2);
     let ks = scalar_alphabet(&n, ctx.seed, "c04k", 1);
     let nbase = ctx.tier.pick(12usize, 160);
@@ -190,6 +190,10 @@ pub fn run(ctx: &Arc<Ctx>) {
             }
         }
         cases.push(mk(sig_bytes(&s, &r), &msg, &id, &pkh, "swapped"));
+        // ECDSA habits: (r, n - s) and (n - r, s) are signatures of nothing here
+        cases.push(mk(sig_bytes(&r, &(&n - &s)), &msg, &id, &pkh, "s-replaced-by-n-s"));
+        cases.push(mk(sig_bytes(&(&n - &r), &s), &msg, &id, &pkh, "r-replaced-by-n-r"));
+        cases.push(mk(sig_bytes(&(&n - &r), &(&n - &s)), &msg, &id, &pkh, "both-negated"));
         cases.push(mk(sig_bytes(&(&r + &n).min(max.clone()), &s), &msg, &id, &pkh, "r+n"));
         cases.push(mk(sig_bytes(&r, &(&s + &n).min(max.clone())), &msg, &id, &pkh, "s+n"));
         // message / id / key changes
